@@ -707,6 +707,19 @@ def probe_grid(ctx, jnp, sh, g, cfg, inp0, nspec, units):
       ctx.expect(np.abs(y * ~mask).max() <= 1e-12 * max(1.0, float(l1.max())), 'outside-triangle-appears',
                  f'analysis produced coefficients outside the mask: {float(np.abs(y * ~mask).max()):.3e}', inp)
       ctx.case(('probe', kind) + key + (x.tobytes(),), nontrivial=R >= 3)
+  # integer-dtype nodal and modal fields are admissible data (masks, counts, integer-valued spectra): analysis,
+  # synthesis and the integral must act on them as on the same values in float64 (seeded C01-6)
+  with ctx.impl('probe-exception', dict(inp0, kind='integer-dtype')):
+    zi = rng.integers(-5, 6, size=tuple(g.nodal_shape))
+    xi = (rng.integers(-5, 6, size=(R, Lm)) * mask).astype(np.int64)
+    iinp = dict(inp0, kind='integer-dtype', z_int=_small(zi))
+    for nm, fn, arg in (('to_modal', g.to_modal, zi), ('integrate', g.integrate, zi), ('to_nodal', g.to_nodal, xi)):
+      gi = np.asarray(fn(jnp.asarray(arg)), dtype=np.float64)
+      gf = np.asarray(fn(jnp.asarray(arg.astype(np.float64))))
+      ctx.expect(gi.shape == gf.shape and np.abs(gi - gf).max() <= 1e-11 * (1 + np.abs(gf).max()), 'integer-dtype',
+                 f'{nm} of an integer-dtype field differs from the same values in float64 '
+                 f'(max {np.abs(gi - gf).max() if gi.shape == gf.shape else "shape"})', dict(iinp, op=nm))
+    ctx.case(('probe', 'integer-dtype') + key, nontrivial=True)
   # the constant field 1 has the spectral coefficient 1/b0 = sqrt(4 pi) (T1.4, |b0^2 4 pi - 1| <= 1e-15), and the 8-digit
   # literal of primitive_equations._add_constant agrees with it within its stated digits (|literal b0 - 1| <= 1e-9)
   with ctx.impl('probe-exception', dict(inp0, kind='ones')):
